@@ -1,6 +1,7 @@
 package p_mixer
 
 import (
+	"fmt"
 	"runtime"
 	"runtime/debug"
 	"sort"
@@ -240,6 +241,54 @@ func TestC18Exhaustive(t *testing.T) {
 		desc = append(desc, map[string]any{"part": "sources whose Reset fails transiently", "alphabet": 2, "max_input_len": 2, "kind_pairs": len(pairs),
 			"failure_plans": len(plans), "error_classes": len(errs), "sequences_per_input": len(seqs), "program_depth_hnr_with_a_reset": depth, "cases_this_shard": n})
 	}
+	// part 5: RUNS of consecutive Reset calls. Programs over the calls {h, n, r, r255, r256, r257} (thorough: also r512,
+	// r65536) to depth 3 (thorough 4; with r65536 to depth 3) that contain a run, inputs over {1,2} of length 0..2, 5 selectors, slice/slice and
+	// slice/disparity sources: a run after a HasNext that loaded the look-ahead, after a Next, after another run (so
+	// that 256+256, 255+1, 1+255+256 ... consecutive Resets occur as well), before and after the end.
+	{
+		calls := []string{"h", "n", "r", "r255", "r256", "r257"}
+		if vstat.Thorough() {
+			calls = append(calls, "r512", "r65536")
+		}
+		depth := vstat.Pick(3, 4)
+		pairs := [][2]string{{KSlice, KSlice}, {KSlice, KDisparity}}
+		seqs := allSeqs(2, 2)
+		n := int64(0)
+		var progs []string
+		enum.Lists(len(calls), depth, 0, 1, func(idx []int) {
+			prog, run, huge := "", false, false
+			for _, e := range idx {
+				prog += calls[e]
+				run = run || e >= 3
+				huge = huge || calls[e] == "r65536"
+			}
+			if run && !(huge && len(idx) > 3) { // a run of 65536 costs a millisecond: programs of up to 3 calls only
+				progs = append(progs, prog)
+			}
+		})
+		for _, prog := range progs {
+			for _, a := range seqs {
+				for _, b := range seqs {
+					combo++
+					if combo%shards != shard {
+						continue
+					}
+					for _, sel := range Selectors {
+						for _, k := range pairs {
+							c := Case{A: a, B: b, KA: k[0], KB: k[1], Sel: sel, Prog: prog}
+							info, v := Run(c)
+							st.Report(t, "TestC18Exhaustive", c, v)
+							record(c, info)
+							n++
+						}
+					}
+				}
+			}
+		}
+		total += n
+		desc = append(desc, map[string]any{"part": "runs of consecutive Reset calls", "alphabet": 2, "max_input_len": 2, "kind_pairs": len(pairs),
+			"calls": calls, "sequences_per_input": len(seqs), "program_depth": depth, "programs_with_a_run": len(progs), "cases_this_shard": n})
+	}
 	st.SetExhaustive("mixer_pairs_x_selectors_x_kinds_x_programs", map[string]any{
 		"parts": desc, "selectors": len(Selectors), "source_kinds_per_input": len(Kinds), "cases_this_shard": total, "shards": shards})
 }
@@ -280,6 +329,19 @@ func genFlaky(t *rapid.T, label string) *Flaky {
 	return &Flaky{K: rapid.SampledFrom([]int{1, 1, 1, 2, 3}).Draw(t, "flakyK"+label), Err: rapid.SampledFrom(FlakyErrs).Draw(t, "flakyErr"+label)}
 }
 
+// genReset draws a Reset call: one in four is a RUN of consecutive Resets ("r256") whose length comes from RunLengths
+// (1..4 and the neighbourhoods of 2^8, 2^9, 2^10, 2^16; the runs of tens of thousands are drawn less often).
+func genReset(t *rapid.T) string {
+	if rapid.IntRange(0, 3).Draw(t, "resetRun") != 0 {
+		return "r"
+	}
+	n := rapid.SampledFrom(RunLengths).Draw(t, "runLen")
+	if n > 60000 && rapid.Bool().Draw(t, "runLenShorter") {
+		n = rapid.SampledFrom([]int{255, 256, 257, 512}).Draw(t, "runLen2")
+	}
+	return fmt.Sprintf("r%d", n)
+}
+
 func genCase(t *rapid.T) Case {
 	c := Case{}
 	c.Sel = rapid.SampledFrom(Selectors).Draw(t, "sel")
@@ -315,24 +377,24 @@ func genCase(t *rapid.T) Case {
 		}
 		resetW = rapid.SampledFrom([]int{1, 3, 3}).Draw(t, "flakyResetWeight")
 	}
-	call := rapid.Custom(func(t *rapid.T) byte {
+	call := rapid.Custom(func(t *rapid.T) string {
 		k := rapid.IntRange(0, 19+resetW+initW).Draw(t, "call")
 		switch {
 		case k < 11:
-			return 'n'
+			return "n"
 		case k < 20:
-			return 'h'
+			return "h"
 		case k < 20+resetW:
-			return 'r'
+			return genReset(t)
 		default:
-			return 'i'
+			return "i"
 		}
 	})
 	maxProg := vstat.Pick(120, 200)
 	if rapid.Bool().Draw(t, "shortProg") {
 		maxProg = 12
 	}
-	c.Prog = string(rapid.SliceOfN(call, 0, maxProg).Draw(t, "prog"))
+	c.Prog = strings.Join(rapid.SliceOfN(call, 0, maxProg).Draw(t, "prog"), "")
 	return c
 }
 
@@ -414,18 +476,18 @@ func genShape(t *rapid.T, lo, hi int) string {
 }
 
 func genProg(t *rapid.T, label string, maxLen, resetW int) string {
-	call := rapid.Custom(func(t *rapid.T) byte {
+	call := rapid.Custom(func(t *rapid.T) string {
 		k := rapid.IntRange(0, 19+resetW).Draw(t, "call")
 		switch {
 		case k < 11:
-			return 'n'
+			return "n"
 		case k < 20:
-			return 'h'
+			return "h"
 		default:
-			return 'r'
+			return genReset(t)
 		}
 	})
-	return string(rapid.SliceOfN(call, 0, maxLen).Draw(t, label))
+	return strings.Join(rapid.SliceOfN(call, 0, maxLen).Draw(t, label), "")
 }
 
 func genRound(t *rapid.T) Round {
@@ -567,10 +629,115 @@ func TestC18ExhaustiveSessions(t *testing.T) {
 		"later_round_programs": len(progs4), "later_round_programs_4_leaves": len(progs3), "selectors": len(Selectors), "cases_this_shard": n, "shards": shards})
 }
 
+// ---- element-type shapes: element types whose zero value is a legal element (elems.go) ----
+
+func recordElem(c ElemCase, info ElemInfo) {
+	vstat.For(prop).Case(info.NonTrivial(), vstat.Hash(c), func() any { return c }, info.Classes(c.Type)...)
+}
+
+// ZeroRanks: where the selector puts the zero value among the ordinary values 1, 2, 3 (rank 2, 4, 6): first, tied with
+// value 1, strictly between 1 and 2, tied with 2, last.
+var ZeroRanks = []int{0, 2, 3, 4, 1000}
+
+func TestC18ElementTypes(t *testing.T) {
+	st := vstat.For(prop)
+	shard, shards := vstat.Shard()
+	// exhaustive: all pairs of sequences over {zero value, 1, 2} of length 0..2 (thorough 0..3) x element types x 5
+	// selectors x 5 ranks of the zero value x every program over {h,n,r} to depth 2 (thorough 3)
+	{
+		var seqs [][]int
+		enum.Lists(3, vstat.Pick(2, 3), 0, 1, func(idx []int) { seqs = append(seqs, append([]int(nil), idx...)) })
+		progs := allPrograms(3, vstat.Pick(2, 3))
+		n, combo := int64(0), 0
+		for _, prog := range progs {
+			for _, a := range seqs {
+				for _, b := range seqs {
+					combo++
+					if combo%shards != shard {
+						continue
+					}
+					for _, typ := range ElemTypes {
+						for _, sel := range Selectors {
+							for _, zr := range ZeroRanks {
+								if (sel == "first" || sel == "second") && zr != 0 {
+									continue // constant selectors do not look at ranks
+								}
+								c := ElemCase{Type: typ, A: a, B: b, Sel: sel, ZeroRank: zr, Prog: prog}
+								info, v := RunElem(c)
+								st.Report(t, "TestC18ElementTypes", c, v)
+								recordElem(c, info)
+								n++
+							}
+						}
+					}
+				}
+			}
+		}
+		st.SetExhaustive("element_types_with_zero_value_elements", map[string]any{"element_types": ElemTypes, "sequences_per_input": len(seqs),
+			"zero_value_ranks": ZeroRanks, "programs": len(progs), "cases_this_shard": n, "shards": shards})
+	}
+	rapid.Check(t, func(t *rapid.T) {
+		c := ElemCase{Type: rapid.SampledFrom(ElemTypes).Draw(t, "type"), Sel: rapid.SampledFrom(Selectors).Draw(t, "sel")}
+		alpha := rapid.SampledFrom([]int{1, 2, 3, 6, 20}).Draw(t, "alpha")
+		c.ZeroRank = rapid.OneOf(rapid.SampledFrom([]int{0, 1000}), rapid.IntRange(0, 2*alpha+1)).Draw(t, "zeroRank")
+		seq := func(label string) []int {
+			n := rapid.OneOf(rapid.IntRange(0, 6), rapid.IntRange(0, 40)).Draw(t, label+"Len")
+			s := rapid.SliceOfN(rapid.IntRange(1, alpha), n, n).Draw(t, label)
+			// zero values: none, one (first / last / anywhere), or every k-th element
+			switch rapid.IntRange(0, 5).Draw(t, label+"Zeros") {
+			case 1, 2:
+				if n > 0 {
+					s[rapid.SampledFrom([]int{0, n - 1, rapid.IntRange(0, n-1).Draw(t, label+"ZeroAt")}).Draw(t, label+"ZeroPos")] = 0
+				}
+			case 3, 4:
+				for k := range s {
+					if rapid.IntRange(0, 3).Draw(t, label+"Zero") == 0 {
+						s[k] = 0
+					}
+				}
+			case 5:
+				for k := range s {
+					s[k] = 0
+				}
+			}
+			if rapid.IntRange(0, 9).Draw(t, label+"Sorted") < 6 {
+				// sorted under the selector: by rank, descending for gt
+				rk := func(v int) int {
+					if v == 0 {
+						return c.ZeroRank
+					}
+					return 2 * v
+				}
+				sort.SliceStable(s, func(x, y int) bool {
+					if c.Sel == "gt" {
+						return rk(s[x]) > rk(s[y])
+					}
+					return rk(s[x]) < rk(s[y])
+				})
+			}
+			return s
+		}
+		c.A, c.B = seq("a"), seq("b")
+		resetW := rapid.SampledFrom([]int{0, 1, 3}).Draw(t, "resetWeight")
+		c.Prog = genProg(t, "prog", rapid.SampledFrom([]int{0, 4, 12, 60}).Draw(t, "maxProg"), resetW)
+		info, v := RunElem(c)
+		st.Report(t, "TestC18ElementTypes", c, v)
+		recordElem(c, info)
+	})
+}
+
 func TestReplay(t *testing.T) {
 	p := vstat.ReplayPath()
 	if p == "" {
 		t.Skip("no replay requested")
+	}
+	// an element-type case is recognised by its "type" member
+	var ec ElemCase
+	if _, err := vstat.LoadReplay(p, &ec); err == nil && ec.Type != "" {
+		info, v := RunElem(ec)
+		vstat.For(prop).Report(t, "TestReplay", ec, v)
+		recordElem(ec, info)
+		return
 	}
 	// a session replay is recognised by its "rounds" member
 	var s Session
